@@ -1,5 +1,4 @@
--- imports RouterTreeLib.lean (the tree model of RouteTree_feasibility.lean without its driver)
-import Probe.TreeLib
+import RouterLookupLib
 /-! Proof probe for C05: the tree built by `insert` contains no template that was not inserted
     ("no junk"): every route stored below a node is stored under its own template. -/
 namespace Tree
